@@ -188,7 +188,7 @@ impl StatusLine {
                 move |(code, _, reason): (_, _, Option<&str>)| -> StatusLine {
                     StatusLine {
                         code: Code::from(code),
-                        reason: reason.and_then(|reason| match reason.trim() {
+                        reason: reason.and_then(|reason| match reason.trim_matches(|c| c == ' ' || c == '\t') {
                             "" => None,
                             s => Some(BytesStr::from_parse(ctx.src, s)),
                         }),
